@@ -184,3 +184,50 @@ Definition ok (c : case) : bool :=
                         end)
           (map m_target (sort_msgs (map (message (c_behs c)) (dedupe (c_targets c))))) (obs_msgs c)
   && all2 (recv_ok c) (seq 0 (length (obs_recv c))) (obs_recv c).
+
+(* ---- client-chosen chunkings ----
+   A client of the streaming RPC cuts the file as it likes (2500 bytes as 1000+1000+500);
+   SendLargeFile must not depend on the chunk sizes: the engine still gets the
+   concatenation, one copy and one result per target. *)
+Record kcase := mkKCase {
+  k_lens : list nat;                      (* lengths of the chunks put on the input channel *)
+  k_targets : list target; k_behs : list beh;
+  kobs_finished : bool; kobs_msgs : list msg; kobs_recv : list recv }.
+
+Definition kmodel (c : kcase) : outcome unit :=
+  send_chunks (map (fun n => repeat tt n) (k_lens c)) (k_targets c) (k_behs c).
+
+Definition kmodel_recv (c : kcase) (o : nat) : recv :=
+  match received (kmodel c) o with
+  | None => RNone
+  | Some l => RPrefix (length l) true 1
+  end.
+
+Definition kagree (c : kcase) : bool :=
+  Bool.eqb (finished (kmodel c)) (kobs_finished c)
+  && all2 msg_eqb (messages (kmodel c)) (kobs_msgs c)
+  && all2 recv_eqb (map (kmodel_recv c) (seq 0 (length (kobs_recv c)))) (kobs_recv c).
+
+Definition kok (c : kcase) : bool :=
+  let size := list_sum (k_lens c) in
+  kobs_finished c
+  && all2 (fun t m => target_eqb (m_target m) t
+                     && match t with
+                        | Some o => err_eqb (m_err m) (engine_err (beh_of (k_behs c) o)) && m_path_ok m
+                        | None => negb (err_eqb (m_err m) ENone)
+                        end)
+          (map m_target (sort_msgs (map (message (k_behs c)) (dedupe (k_targets c))))) (kobs_msgs c)
+  && all2 (fun o r =>
+             if existsb (target_eqb (Some o)) (k_targets c) then
+               match r with
+               | RPrefix n meta calls =>
+                   meta && Nat.eqb calls 1
+                   && match beh_of (k_behs c) o with
+                      | Drain | DrainErr => Nat.eqb n size
+                      | GiveUp _ => n <=? size
+                      | Ignore => true
+                      end
+               | _ => false
+               end
+             else match r with RNone => true | _ => false end)
+          (seq 0 (length (kobs_recv c))) (kobs_recv c).
